@@ -552,7 +552,148 @@ fn hammer(tier: Tier, ctx: &mut Ctx) -> Result<(), crate::runner::Violation> {
     Ok(())
 }
 
+/// Stream searches with long patterns (roll buffer larger than the default)
+/// interleaved with tiny, empty and exactly-one-pattern streams on the same
+/// searcher and on a clone: the result for the long stream must not depend
+/// on which stream was searched before it.
+fn stream_history(tier: Tier, ctx: &mut Ctx) -> Result<(), crate::runner::Violation> {
+    use crate::case::{Cfg, Sk};
+    let lens: &[usize] = if tier == Tier::Thorough { &[1024, 4096, 9000, 70_000] } else { &[4096, 9000] };
+    let mut runs = 0u64;
+    for &l in lens {
+        // border-free pseudo-random pattern (linear builds), filler 'z' never occurs in it
+        let pat: Vec<u8> = (0..l as u32).map(|i| b'a' + ((i.wrapping_mul(2654435761) >> 11) % 23) as u8).collect();
+        let mut long = Vec::new();
+        let mut expect = Vec::new();
+        for k in 0..6usize {
+            long.extend(std::iter::repeat(b'z').take(37 + k * 101));
+            expect.push(crate::model::M { pat: 0, start: long.len(), end: long.len() + l });
+            long.extend_from_slice(&pat);
+        }
+        long.extend_from_slice(b"zzz");
+        let repl = vec![b"<R>".to_vec()];
+        let expect_out_len = long.len() - 6 * l + 6 * 3;
+        for engine in [Engine::TopNc, Engine::TopC, Engine::TopDfa, Engine::LowC] {
+            let cfg = Cfg { engine, mk: Mk::Standard, sk: Sk::Unanchored, prefilter: true, dense_depth: 2, byte_classes: true, casei: false };
+            let case = Case { prop: "C17".into(), sub: "scenario:stream-history".into(), cfg: cfg.clone(), patterns: vec![], params: vec![l as i64], note: format!("one pseudo-random pattern of {} bytes; long stream with 6 occurrences preceded by tiny / empty / one-pattern streams", l), ..Case::default() };
+            let fail = |reason: String| crate::runner::Violation { case: case.clone(), reason };
+            let s = Searcher::build(&cfg, &[pat.clone()]).map_err(|e| fail(e))?;
+            let s2 = clone_searcher(&s);
+            let preludes: [&[u8]; 6] = [b"zz", b"", b"z", &pat, &pat[..l - 1], b"zzzzzzzzzzzzzzzzzzzzzzzzzzzzzzzzzzzzzzzz"];
+            for (i, pre) in preludes.iter().enumerate() {
+                let (a, b) = if i % 2 == 0 { (&s, &s2) } else { (&s2, &s) };
+                let r = guard(|| a.stream_find(&pre[..]));
+                let want_pre: Vec<crate::model::M> = if pre.len() == l { vec![crate::model::M { pat: 0, start: 0, end: l }] } else { vec![] };
+                let ok = matches!(&r, Ok(Ok(v)) if v.len() == want_pre.len() && v.iter().zip(&want_pre).all(|(x, y)| matches!(x, Ok(m) if m == y)));
+                if !ok {
+                    return Err(fail(format!("stream search of a {}-byte stream (prelude {}) is wrong: {:?}", pre.len(), i, r.map(|x| x.map(|v| v.len())))));
+                }
+                let r = guard(|| b.stream_find(&long[..]));
+                let ok = matches!(&r, Ok(Ok(v)) if v.len() == expect.len() && v.iter().zip(&expect).all(|(x, y)| matches!(x, Ok(m) if m == y)));
+                if !ok {
+                    return Err(fail(format!(
+                        "stream search over the {}-byte stream right after a {}-byte stream (prelude {}): expected 6 matches {:?}, got {:?}",
+                        long.len(), pre.len(), i, expect, r.map(|x| x.map(|v| v.into_iter().map(|m| m.map_err(|e| e.to_string())).collect::<Vec<_>>()))
+                    )));
+                }
+                let _ = guard(|| {
+                    let mut sink = Vec::new();
+                    a.stream_replace_all(&pre[..], &mut sink, &repl)
+                });
+                let mut out = Vec::new();
+                let r = guard(|| b.stream_replace_all(&long[..], &mut out, &repl));
+                if !matches!(r, Ok(Ok(()))) || out.len() != expect_out_len {
+                    return Err(fail(format!("stream replacement over the {}-byte stream right after a {}-byte stream (prelude {}): expected Ok and {} output bytes, got {:?} and {} bytes", long.len(), pre.len(), i, expect_out_len, r.map(|x| x.map_err(|e| e.to_string())), out.len())));
+                }
+                runs += 2;
+            }
+        }
+    }
+    ctx.count("stream_history_runs", runs);
+    ctx.class("scenario:stream-history(long patterns)");
+    Ok(())
+}
+
+/// First use of a FRESH, large searcher by several threads at once: anything
+/// initialised lazily on first use (tables, caches) is raced here. Each
+/// attempt builds a new searcher over ~23K patterns (every two-byte string
+/// over 150 symbols plus the one-byte strings, so that most match states carry
+/// two matches), releases 8 threads with a barrier for their first search
+/// (overlapping stepping, iterator, find, is_match on per-thread haystacks)
+/// and compares with the model.
+fn cold_start(tier: Tier, ctx: &mut Ctx) -> Result<(), crate::runner::Violation> {
+    use crate::case::{Cfg, Sk};
+    let attempts = if tier == Tier::Thorough { 12 } else { 3 };
+    let syms: Vec<u8> = (0..150u32).map(|i| (i + 40) as u8).collect();
+    let mut patterns: Vec<Vec<u8>> = Vec::new();
+    for &a in &syms {
+        for &b in &syms {
+            patterns.push(vec![a, b]);
+        }
+    }
+    for &a in &syms {
+        patterns.push(vec![a]);
+    }
+    let hays: Vec<Vec<u8>> = (0..8usize).map(|t| (0..160usize).map(|i| syms[(i * (7 + t) + t * 31 + (i * i) % 11) % syms.len()]).collect()).collect();
+    let mut searches = 0u64;
+    for mk in [Mk::Standard, Mk::LeftmostFirst] {
+        let expect: Vec<(Vec<crate::model::M>, Vec<crate::model::M>)> = hays
+            .iter()
+            .map(|h| {
+                let occ = Occ::new(&patterns, h, false);
+                (if mk == Mk::Standard { occ.overlapping(0, h.len(), false) } else { vec![] }, occ.iter(mk, 0, h.len(), false))
+            })
+            .collect();
+        for engine in [Engine::TopNc, Engine::LowNc, Engine::TopC, Engine::TopDfa] {
+            let cfg = Cfg { engine, mk, sk: Sk::Unanchored, prefilter: false, dense_depth: 1, byte_classes: true, casei: false };
+            let case = Case { prop: "C17".into(), sub: "scenario:cold-start".into(), cfg: cfg.clone(), patterns: vec![], threads: 8, note: "patterns: all two-byte strings over bytes 40..190 plus the one-byte strings; 8 threads make their first search on a fresh searcher at once".into(), ..Case::default() };
+            let fail = |reason: String| crate::runner::Violation { case: case.clone(), reason };
+            for attempt in 0..attempts {
+                let s = Searcher::build(&cfg, &patterns).map_err(|e| fail(e))?;
+                let barrier = std::sync::Barrier::new(hays.len());
+                let bad: std::sync::Mutex<Option<String>> = std::sync::Mutex::new(None);
+                std::thread::scope(|sc| {
+                    for (t, h) in hays.iter().enumerate() {
+                        let (s, expect, barrier, bad) = (&s, &expect, &barrier, &bad);
+                        sc.spawn(move || {
+                            barrier.wait();
+                            let overlapping = mk == Mk::Standard && t % 2 == 0;
+                            let r = guard(|| {
+                                if overlapping {
+                                    s.overlapping_steps(input(h, (0, h.len()), false, false), 0, 1_000_000)
+                                } else {
+                                    s.try_find_iter(input(h, (0, h.len()), false, false))
+                                }
+                            });
+                            let want = if overlapping { &expect[t].0 } else { &expect[t].1 };
+                            let ok = matches!(&r, Ok(Ok(v)) if v == want);
+                            if !ok {
+                                let mut b = bad.lock().unwrap();
+                                if b.is_none() {
+                                    let got = r.map(|x| x.map(|v| v.len()).map_err(|e| e.to_string()));
+                                    *b = Some(format!("cold start (attempt {}): thread {}'s first {} search on a fresh searcher returned {:?} matches, the model has {} (first search of all 8 threads released together)", attempt, t, if overlapping { "overlapping" } else { "iterator" }, got, want.len()));
+                                }
+                            }
+                        });
+                    }
+                });
+                if let Some(b) = bad.into_inner().unwrap() {
+                    let mut v = fail(b);
+                    v.case.ops = hays.iter().map(|h| Op { handle: 0, api: 2, haystack: h.clone(), span: (0, h.len()), anchored: false }).collect();
+                    return Err(v);
+                }
+                searches += 8;
+            }
+        }
+    }
+    ctx.count("cold_start_first_searches", searches);
+    ctx.class("scenario:cold-start(fresh large searcher, 8 threads)");
+    Ok(())
+}
+
 fn c17_extra(tier: Tier, _seed: u64, ctx: &mut Ctx) -> Result<bool, crate::runner::Violation> {
+    stream_history(tier, ctx)?;
+    cold_start(tier, ctx)?;
     hammer(tier, ctx)?;
     let hits = source_scan();
     ctx.count("interior_mutability_keyword_hits_outside_hooks", hits.as_array().map_or(0, |a| a.len()) as u64);
